@@ -769,8 +769,11 @@ class NullRun:
         self.tier = tier
         self.counters = {}
         self.extra = {}
+        self.failed = []  # keys / messages of the checks that failed (for the re-using property to look at)
 
     def check(self, cond, *a, **k):
+        if not cond:
+            self.failed.append((k.get("key") or (a[0] if a else "?"), a[2] if len(a) > 2 else ""))
         return bool(cond)
 
     def seen(self, *a, **k):
@@ -783,7 +786,7 @@ class NullRun:
         pass
 
     def violation(self, *a, **k):
-        pass
+        self.failed.append((a[0] if a else "?", a[1] if len(a) > 1 else ""))
 
 
 def ape_cli(run, case, rng, work):
